@@ -75,6 +75,23 @@ func (u *Unit) specTermCtx(c Clause, env *Env, sc *specCtx) Term {
 }
 
 func (u *Unit) lookupName(name string, env *Env, sc *specCtx) (Value, bool) {
+	// signature names are positional (see sigRenames); not for names bound by the clause itself (quantified variables etc.)
+	isBound := false
+	if sc != nil {
+		_, isBound = sc.bound[name]
+	}
+	if sc != nil && !isBound {
+		ctxFn := sc.fi
+		if ctxFn == nil && len(u.curFn) > 0 {
+			ctxFn = u.curFn[len(u.curFn)-1]
+		}
+		if alt, ok := u.Prog.sigRenames(ctxFn)[name]; ok {
+			if v, ok := u.lookupName1(alt, env, sc); ok {
+				u.note(fmt.Sprintf("contract name %q of %s read as %q (the signature variable at that position)", name, ctxFn.Key, alt))
+				return v, true
+			}
+		}
+	}
 	if v, ok := u.lookupName1(name, env, sc); ok {
 		return v, true
 	}
@@ -90,7 +107,17 @@ func (u *Unit) lookupName(name string, env *Env, sc *specCtx) (Value, bool) {
 	for _, fi := range fis {
 		if alt, ok := u.Prog.renames(fi)[name]; ok && alt != name {
 			if v, ok := u.lookupName1(alt, env, sc); ok {
-				u.note(fmt.Sprintf("contract name %q read as %q (the variable at that position was renamed)", name, alt))
+				u.note(fmt.Sprintf("contract name %q read as %q (a renamed local of the same type)", name, alt))
+				return v, true
+			}
+		}
+		if ord, ok := u.Prog.counterRenames(fi)[name]; ok {
+			alt := fmt.Sprintf("_i%d", ord)
+			if u.specLoopOrd == ord+1 {
+				alt = "_i"
+			}
+			if v, ok := u.lookupName1(alt, env, sc); ok {
+				u.note(fmt.Sprintf("contract name %q read as the iteration counter of loop %d (the index variable is gone; the loop ranges without a key)", name, ord))
 				return v, true
 			}
 		}
